@@ -273,6 +273,34 @@ example : (starstarItems [] [] (.str "abc")).1 = [.str "abc"] := by
   simp only [e]
   rw [ssLoop]; simp
 
+-- `delete(t, '*.k', ignore_missing=True)` on `[{}, {'k': 1}, {'k': 2, 'a': 0}]`: the first entry lacks
+-- the key and is left alone, both later entries lose it (the hypothesis of `c14_ignore_skips_entry`
+-- holds for the first entry, that of `c14_ignore_deletes_entry` for the second)
+private def rgHeap : Heap :=
+  [ .list "list" [.ref 1, .ref 2, .ref 3], .dict "dict" [],
+    .dict "dict" [(.str "k", .int 1)], .dict "dict" [(.str "k", .int 2), (.str "a", .int 0)] ]
+private def mutIs (o : Obs) (h : Heap) (e : Option String) : Bool :=
+  match o with | .mutated h' e' => h' == h && e' == e | _ => false
+private def opIs (r : Except MErr Heap) (x : Except MErr Heap) : Bool :=
+  match r, x with
+  | .ok a, .ok b => a == b
+  | .error a, .error b => a == b
+  | _, _ => false
+example : opIs (delOp [] "P" false rgHeap (.ref 1) (.str "k")) (.error (.assign "KeyError")) = true := by decide
+example : opIs (delOp [] "P" false rgHeap (.ref 2) (.str "k"))
+    (.ok (rgHeap.set 2 (.dict "dict" []))) = true := by decide
+example : mutIs (modelMutate [] rgHeap [("x", .none)] (.str "k") (.delete "P" true) (.ref 0))
+    [ .list "list" [.ref 1, .ref 2, .ref 3], .dict "dict" [], .dict "dict" [],
+      .dict "dict" [(.str "a", .int 0)] ] none = true := by decide
+-- … without the flag the first entry raises and nothing is deleted
+example : mutIs (modelMutate [] rgHeap [("x", .none)] (.str "k") (.delete "[" false) (.ref 0))
+    rgHeap (some "PathDeleteError") = true := by decide
+-- `assign(t, '*.k', 9, missing=dict)`: every entry is assigned, nothing is created
+example : mutIs (modelMutate [] rgHeap [("x", .none)] (.str "k") (.assign "P" (.int 9) true) (.ref 0))
+    [ .list "list" [.ref 1, .ref 2, .ref 3], .dict "dict" [(.str "k", .int 9)],
+      .dict "dict" [(.str "k", .int 9)], .dict "dict" [(.str "k", .int 9), (.str "a", .int 0)] ] none = true := by
+  decide
+
 /-- **Counter-example for the hypothesis `heapWF`** (forced by `c14_star`): a "dict" cell with two
     equal keys cannot be built in Python; in it the second value is unreachable through the key, so
     `_extend_children` (keys, then `get`) would yield the first value twice. -/
